@@ -55,10 +55,19 @@ def check(chk):
     f = repo.func(PL, "Player.__setattr__")
     chk.analysed(f)
     cfg = f.cfg()
-    prev = [n for n in cfg.nodes_where(lambda n: n.kind == "stmt" and isinstance(n.ast, ast.Assign) and src(n.ast.targets[0]) == "prev_value" and
-                                       "self.vars[name]" in src(n.ast.value))]
+    allprev = [n for n in cfg.nodes_where(lambda n: n.kind == "stmt" and isinstance(n.ast, ast.Assign) and src(n.ast.targets[0]) == "prev_value")]
     store = [n for n in cfg.nodes_where(lambda n: n.kind == "stmt" and isinstance(n.ast, ast.Assign) and src(n.ast.targets[0]) == "self.vars[name]")]
-    chk.require(prev and store, "C11: Player.__setattr__ anchors vanished")
+    chk.require(allprev and store, "C11: Player.__setattr__ anchors vanished")
+    # the previous value is the stored value itself whenever one is stored ('' and 0.0 are values), and 0 only for a variable that is new
+    exact = [n for n in allprev if src(n.ast.value) == "self.vars[name]" and cfg.guards_at(n.id).get("name in self.vars") is True] + \
+            [n for n in allprev if src(n.ast.value).replace(" ", "") == "self.vars.get(name,0)"]
+    other = [n for n in allprev if n not in exact and not (isinstance(n.ast.value, ast.Constant) and n.ast.value.value == 0)]
+    chk.ob("DOM-21", "the previous value handed to the event is the stored value itself (0 only for a variable that did not exist)", bool(exact) and not other,
+           f.where(other[0].ast) if other else f.where(), detail="; ".join(short(n.ast, 60) for n in other), construct=f.ident, text="previous value source")
+    ne = [n for n in cfg.nodes_where(lambda n: n.kind == "stmt" and isinstance(n.ast, ast.Assign) and src(n.ast.targets[0]) == "new_entry")]
+    ok_ne = any((src(n.ast.value) == "True" and cfg.guards_at(n.id).get("name in self.vars") is False) or src(n.ast.value).replace(" ", "") == "namenotinself.vars" for n in ne)
+    chk.ob("DOM-21", "a variable counts as new exactly when it was not stored before", ok_ne, f.where(), construct=f.ident, text="new entry test")
+    prev = exact or allprev
     ok = not any(cfg.path_avoiding(store[0].id, [p_.id], []) for p_ in prev)
     chk.ob("DOM-21", "the previous value is read before the new one is stored", ok, f.where(), construct=f.ident, text="prev before store")
     chk.ob("DOM-21", "the new value is stored under its own name", src(store[0].ast.value) == "value", f.where(store[0].ast), construct=f.ident,
@@ -632,6 +641,8 @@ def battery():
         M("persisted state machine keeps its handlers on unload", "mpf/devices/state_machine.py", "        self._remove_handlers()\n        self.notify_virtual_change(\"state\", self.state, None)\n        self._state = None", "        self.notify_virtual_change(\"state\", self.state, None)\n        if not self.config['persist_state']:\n            self._remove_handlers()\n            self._state = None", "PAIR-12"),
         M("restart list keeps the modes that have not finished starting", MC, "        self.machine.game.player.restart_modes_on_next_ball = list()\n\n    def _ball_ending", "        self.machine.game.player.restart_modes_on_next_ball = [m for m in self.machine.game.player.restart_modes_on_next_ball if not m.active]\n\n    def _ball_ending", "RESTART-11"),
         M("restart only remembered for modes that stop at ball end", MC, "            if mode.restart_on_next_ball:", "            if mode.restart_on_next_ball and mode.auto_stop_on_ball_end:", "RESTART-11"),
+        M("falsy previous value reported as 0", PL, "        new_entry = False\n        prev_value = 0\n        if name in self.vars:\n            prev_value = self.vars[name]\n        else:\n            new_entry = True\n", "        new_entry = name not in self.vars\n        prev_value = self.vars.get(name) or 0\n", "DOM-21"),
+        M("twin: previous value by get with default", PL, "        new_entry = False\n        prev_value = 0\n        if name in self.vars:\n            prev_value = self.vars[name]\n        else:\n            new_entry = True\n", "        new_entry = name not in self.vars\n        prev_value = self.vars.get(name, 0)\n", None),
     ]
 
 
